@@ -96,6 +96,25 @@ example :
      accepted (validateOutbound (.connect { will := some { topic := [97, 47, 98], responseTopic := some [114] } }))) = true := by
   decide
 
+/-- **A SUBSCRIBE accepted at submission has a non-empty subscription list, a Subscription Identifier in 1..268,435,455
+    (when it has one; 0 is a protocol error) and user properties that fit.**  (Topic-filter grammar is connection dependent -
+    wildcard / shared availability - and is checked by the send-time validator.) -/
+theorem subscribe_accepted_is_statically_valid_partial (p : Subscribe) :
+    validateOutbound (.subscribe p) = .ok () →
+      p.subscriptions ≠ [] ∧ (∀ i, p.subscriptionId = some i → 1 ≤ i ∧ i ≤ 268435455) ∧ Spec.upsOk p.userProps = true := by
+  unfold validateOutbound vSubscribeOutbound
+  simp only [bind_ok_iff, okIf_ok, vUserProps_ok]
+  intro ⟨_, h2, h3, h4⟩
+  refine ⟨?_, ?_, h4⟩
+  · intro h; rw [h] at h2; simp at h2
+  · intro i hi; rw [hi] at h3; simpa using h3
+
+example :
+    (!accepted (validateOutbound (.subscribe { subscriptions := [{ topicFilter := [97] }], subscriptionId := some 0 })) &&
+     !accepted (validateOutbound (.subscribe { subscriptions := [{ topicFilter := [97] }], subscriptionId := some 268435456 })) &&
+     accepted (validateOutbound (.subscribe { subscriptions := [{ topicFilter := [97] }], subscriptionId := some 268435455 }))) = true := by
+  decide
+
 /-- Non-vacuity: a concrete PUBLISH accepted by both validators exactly up to the size limit. -/
 def demo : Publish := { topic := [97, 47, 98], qos := 1, packetId := 7, payload := some [1, 2, 3] }
 
